@@ -51,6 +51,7 @@ class Machine:
         self.assert_failures: list = []
         self.attr_on_none: list = []
         self.transitions: list = []               # (method, pre, post, outcome)
+        self._locals: dict = {}
         self._discover_fields()
 
     # ------------------------------------------------------------------ field discovery
@@ -98,8 +99,18 @@ class Machine:
                 return f
             return None
         if isinstance(e, ast.Name):
-            return f"${depth}.{e.id}"
+            if e.id in self._locals.get(depth, ()):
+                return f"${depth}.{e.id}"
+            return None
         return None
+
+    @staticmethod
+    def locals_of(fn: FuncInfo) -> set:
+        out = set(p for p in fn.params if p != "self")
+        for n in ast.walk(fn.node):
+            if isinstance(n, ast.Name) and isinstance(n.ctx, ast.Store):
+                out.add(n.id)
+        return out
 
     def ev(self, e: ast.AST, store: dict, depth: int):
         """Abstract value of an expression (no side effects; calls to own methods are handled by the statement level)."""
@@ -320,7 +331,10 @@ class Machine:
                 if kw.arg == p:
                     v = self.ev(kw.value, store, depth)
             st[f"${depth + 1}.{p}"] = v
+        saved = self._locals.get(depth + 1)
+        self._locals[depth + 1] = self.locals_of(m)
         fall, rets, rais = self.run_block(m.node.body, [st], depth + 1, m)
+        self._locals[depth + 1] = saved
         outs = [(s2, N) for s2 in fall] + rets
 
         def drop(s2):
@@ -361,6 +375,10 @@ class Machine:
             for st, v in outs:
                 if isinstance(s, ast.AugAssign):
                     v = S
+                if isinstance(s, ast.AnnAssign) and v == T:
+                    ann = unparse(s.annotation)
+                    if not (ann.startswith("Optional[") or ann.endswith("| None") or ann in ("dict", "Any", "object")):
+                        v = S           # a non-Optional annotation is trusted (trusted base)
                 for t in tgts:
                     if isinstance(t, ast.Subscript) or (isinstance(t, ast.Attribute) and not self.pure(t.value, st, depth)):
                         rais.append(st)
@@ -471,6 +489,7 @@ class Machine:
         st = {}
         for p in init.params[1:]:
             st[f"$0.{p}"] = S
+        self._locals[0] = self.locals_of(init)
         fall, rets, rais = self.run_block(init.node.body, [st], 0, init)
         outs = fall + [s for s, _ in rets]
         return [self.fields_only(s) for s in outs]
@@ -489,6 +508,7 @@ class Machine:
             else:
                 variants = [dict(v, **{f"$0.{p}": (T if ann in ("dict", "") else S)}) for v in variants]
         out = []
+        self._locals[0] = self.locals_of(m)
         for v in variants:
             fall, rets, rais = self.run_block(m.node.body, [v], 0, m)
             for s2 in fall:
